@@ -26,6 +26,7 @@ from concurrent.futures import ThreadPoolExecutor
 from lib import core
 
 DRIVER = "drv_spacebounds"
+WORKERS = int(os.environ.get("VERIF_WORKERS", "6"))   # harness processes run at a time
 LEAN_TARGETS = ["OmplModel.Props.C08", DRIVER]
 EPS = 2.0 ** -52
 PI = math.pi
@@ -1494,6 +1495,273 @@ def vs_oracle(m, line):
     return None
 
 
+# ---------------------------------------------------------------- round 10: vsa / svn (arguments of the inner calls, searchValidNearby)
+VIA = ["d", "p"]
+
+
+def gen_rn_bounds(r, dim):
+    """per-dimension ranges of an R^dim box; at least one has positive width (SpaceInformation::setup refuses extent 0)"""
+    while True:
+        lo, hi = [], []
+        for _ in range(dim):
+            k = r.below(7)
+            if k == 0:
+                a = r.choice([0.0, -5.0, 3.25, 1e6])
+                lo.append(a); hi.append(a)                      # zero width
+            elif k == 1:
+                a = r.uniform(-50, 50)
+                lo.append(a); hi.append(a + r.choice([1e-9, 1e-3, 1.0]))
+            elif k == 2:
+                lo.append(-1e6); hi.append(1e6)
+            elif k == 3:
+                a = r.uniform(-900, -100)
+                lo.append(a); hi.append(a + r.uniform(1, 90))  # negative range
+            else:
+                a = r.uniform(-100, 0)
+                lo.append(a); hi.append(a + r.uniform(0.5, 200))
+        if any(h > l for l, h in zip(lo, hi)):
+            return lo, hi
+
+
+def rn_sat(lo, hi, x):
+    return all(not (v - EPS > h or v + EPS < l) for l, h, v in zip(lo, hi, x))
+
+
+def rn_enforce(lo, hi, x):
+    return [h if v > h else (l if v < l else v) for l, h, v in zip(lo, hi, x)]
+
+
+def gen_rn_point(r, lo, hi, kind):
+    out = []
+    for l, h in zip(lo, hi):
+        if kind == "in":
+            k = r.below(10)
+            out.append(l if k == 0 else h if k == 1 else l + (h - l) * r.uniform(0, 1))
+        elif kind == "slack":
+            # satisfiesBounds grants eps: hi + eps/2 is "in bounds" and is NOT enforced; hi + 4 eps is out (for |hi| <= 1)
+            out.append(r.choice([h + EPS / 2, l - EPS / 2, h + 4 * EPS, l - 4 * EPS, nextafter(h, 1e308), nextafter(l, -1e308)]))
+        else:
+            k = r.below(4)
+            out.append(h + r.uniform(0.001, 1e4) if k == 0 else l - r.uniform(0.001, 1e4) if k == 1
+                       else h + 1e300 if k == 2 else l + (h - l) * r.uniform(0, 1))
+    return out
+
+
+def gen_vtail(r, name, attempts, improve, nd, counts, tag):
+    dim = r.choice([1, 1, 2, 3])
+    lo, hi = gen_rn_bounds(r, dim)
+    sd = r.choice(["-", "-", 0.0, 0.3, 50.0, 1e7])
+    dist = r.choice([0.0, 0.5, 10.0, 1e9, r.uniform(0, 300)])
+    nk = r.choice(["in", "in", "in", "slack", "out", "out"])
+    near = gen_rn_point(r, lo, hi, nk)
+    honest = r.below(4) != 0          # the scripted inner sampler keeps its contract (in-bounds outputs)
+    a = max(attempts, 1)
+    ns = 2 * a + improve + 2
+    na = 3 * a + improve + nd + 6
+    pv = r.choice([0, 150, 500, 850, 1000])
+    samples, seen = [], set()
+    while len(samples) < ns:
+        x = tuple(gen_rn_point(r, lo, hi, "in" if honest else r.choice(["in", "out"])))
+        if x not in seen or all(l == h for l, h in zip(lo, hi)) or len(seen) > 3 * ns:
+            seen.add(x)
+            samples.append(x)
+        else:
+            seen.add(x + (len(seen),))
+    answers = [(1 if r.below(1000) < pv else 0, r.choice([0.0, 0.25, 0.5, 1.0, 1.5, 2.0, -0.5, r.uniform(-1, 3)])) for _ in range(na)]
+    toks = [str(dim)] + [fb(v) for v in lo] + [fb(v) for v in hi] + ["-" if sd == "-" else fb(sd), fb(dist)] + [fb(v) for v in near]
+    toks.append(str(ns))
+    for x in samples:
+        toks += [fb(v) for v in x]
+    toks.append(str(na))
+    for v, c in answers:
+        toks += [str(v), fb(c)]
+    counts(tag + "-near:" + nk)
+    counts(tag + "-inner:" + ("honest" if honest else "adversarial"))
+    counts(tag + "-stddev:" + ("default" if sd == "-" else "set"))
+    return toks, {"dim": dim, "lo": lo, "hi": hi, "sd": sd, "dist": dist, "near": near, "honest": honest, "answers": answers,
+                  "samples": samples}
+
+
+def gen_vsa_op(r, counts):
+    name = r.choice(VS_NAMES)
+    mode = r.choice(["s", "n"])
+    via = r.choice(VIA)
+    attempts = r.choice([0, 1, 1, 2, 3, 5, 8])
+    improve = r.choice([0, 1, 3, 4])
+    clr = r.choice([0.0, 1.0, 0.5, -1.0])
+    nd = r.choice([1, 1, 2, 3, 5, 9])
+    tail, m = gen_vtail(r, name, attempts, improve, nd, counts, "vsa")
+    toks = ["vsa", name, mode, via, str(attempts), str(improve), fb(clr), str(nd)] + tail
+    m.update({"op": "vsa", "name": name, "mode": mode, "via": via, "attempts": attempts, "improve": improve, "clr": clr, "nd": nd})
+    counts("vsa:" + name)
+    counts("vsa-mode:" + mode)
+    counts("vsa-via:" + via)
+    return " ".join(toks), m
+
+
+def gen_svn_op(r, counts):
+    ov = r.choice([1, 1, 2])
+    name = "uniform" if ov == 2 else r.choice(VS_NAMES)
+    via = r.choice(VIA)
+    attempts = r.choice([0, 1, 1, 2, 3, 5])
+    improve = r.choice([0, 1, 3])
+    clr = r.choice([0.0, 1.0, 0.5, -1.0])
+    nd = r.choice([1, 2, 3, 5])
+    alias = r.below(2)
+    tail, m = gen_vtail(r, name, attempts, improve, nd, counts, "svn")
+    toks = ["svn", str(ov), name, via, str(attempts), str(improve), fb(clr), str(nd), str(alias)] + tail
+    m.update({"op": "svn", "overload": ov, "name": name, "mode": "n", "via": via, "attempts": attempts, "improve": improve,
+              "clr": clr, "nd": nd, "alias": alias})
+    counts("svn:overload%d" % ov)
+    counts("svn:" + name)
+    counts("svn-alias:%d" % alias)
+    return " ".join(toks), m
+
+
+def parse_calls(field):
+    """calls=U;N:<bits,..>@<bits>;G:<bits,..>@<bits> -> [(kind, [floats] | None, float | None)]"""
+    out = []
+    if not field:
+        return out
+    for c in field.split(";"):
+        if c == "U":
+            out.append(("U", None, None))
+        else:
+            kind, rest = c.split(":", 1)
+            st, d = rest.split("@")
+            out.append((kind, [bf(x) for x in st.split(",")], bf(d)))
+    return out
+
+
+def vsa_oracle(m, line):
+    """independent of the model: (1) success => the last recorded answer about the returned state is true (vs_oracle);
+    (2) the arguments handed to the inner sampler: every near call gets the caller's near state (svn: the ENFORCED one, which
+    satisfies the bounds) and distance, every Gaussian call gets as mean the state the inner sampler wrote just before and as
+    sigma stddev_ (sample) / the distance (sampleNear) -- clause `valid-sampler-args` (reported as a correspondence failure);
+    an OUT-OF-BOUNDS near / mean state handed over although the caller's inputs were in bounds breaks the precondition of the
+    sampler theorems -- clause `valid-sampler-precondition` (a failing input); (3) with an inner sampler that keeps its contract the state returned
+    with success satisfies the bounds; (4) searchValidNearby's fast paths"""
+    mm = m
+    if m["op"] == "svn" and " ns=0 " in line:
+        # searchValidNearby's fast path accepts on isValid() alone: the sampler's own criterion (MinimumClearance) is not asked
+        mm = dict(m, name="uniform")
+    f = vs_oracle(mm, line)
+    if f is not None:
+        return (f[0], m["name"], f[2])
+    h = dict(kv.split("=", 1) for kv in line.split())
+    try:
+        calls = parse_calls(h["calls"])
+        st = [bf(x) for x in h["st"].split(",")]
+        log = [e.rsplit(":", 1) for e in h["log"].split(";")] if h["log"] else []
+    except Exception as ex:
+        return ("protocol", m["name"], "unparsable output %r (%r)" % (line, ex))
+    lo, hi, near, dist = m["lo"], m["hi"], m["near"], m["dist"]
+    svn = m["op"] == "svn"
+    centre = near
+    if svn:
+        centre = near if rn_sat(lo, hi, near) else rn_enforce(lo, hi, near)
+        if not rn_sat(lo, hi, centre):
+            return ("searchValidNearby", m["name"], "enforced near state does not satisfy the bounds")
+    if len(calls) != int(h["ns"]):
+        return ("protocol", m["name"], "recorded calls differ from the sampler call count")
+    sig = dist if m["mode"] == "n" else (None if m["sd"] == "-" else m["sd"])
+    for idx, (kind, cst, d) in enumerate(calls):
+        if kind == "N":
+            if m["mode"] != "n":
+                return ("valid-sampler-args", m["name"], "sampleUniformNear called by sample()")
+            if svn and not rn_sat(lo, hi, cst):
+                return ("valid-sampler-precondition", m["name"], "inner sampleUniformNear was given an out-of-bounds near state")
+            if cst != list(centre) or d != dist:
+                return ("valid-sampler-args", m["name"], "inner sampleUniformNear was given near=%r distance=%r, expected %r, %r"
+                        % (cst, d, list(centre), dist))
+        elif kind == "G":
+            if m["name"] not in ("gaussian", "bridge"):
+                return ("valid-sampler-args", m["name"], "sampleGaussian called by a sampler that has no Gaussian step")
+            if m["honest"] and (m["mode"] == "s" or svn or rn_sat(lo, hi, near)) and not rn_sat(lo, hi, cst):
+                return ("valid-sampler-precondition", m["name"], "inner sampleGaussian was given an out-of-bounds mean")
+            if idx == 0 or cst != list(m["samples"][idx - 1]):
+                return ("valid-sampler-args", m["name"], "inner sampleGaussian was given a mean that is not the state sampled "
+                        "just before (call %d)" % idx)
+            if sig is not None and d != sig:
+                return ("valid-sampler-args", m["name"], "inner sampleGaussian was given sigma %r, expected %r" % (d, sig))
+        elif kind == "U":
+            if m["mode"] == "n" and not (m["name"] == "obstacle"):
+                return ("valid-sampler-args", m["name"], "sampleUniform called by sampleNear()")
+    ret = h["ret"] == "1"
+    inb_near = (not svn and (m["mode"] == "s" or rn_sat(lo, hi, near))) or svn
+    if ret and m["honest"] and inb_near and not rn_sat(lo, hi, st):
+        return ("valid-sampler-inbounds", m["name"], "returned with success the out-of-bounds state %r" % st)
+    if svn:
+        a0 = m["answers"][0][0] == 1
+        if m["overload"] == 2 and rn_sat(lo, hi, near) and a0:
+            if not (ret and st == list(near) and int(h["ns"]) == 0 and int(h["na"]) == 1):
+                return ("searchValidNearby", m["name"], "in-bounds valid near state was not returned as it is")
+        if m["overload"] == 1 and a0:
+            if not (ret and st == list(centre) and int(h["ns"]) == 0 and int(h["na"]) == 1):
+                return ("searchValidNearby", m["name"], "valid (enforced) near state was not returned as it is")
+        if log and [bf(x) for x in log[0][0].split(",")] != list(centre if not (m["overload"] == 2 and rn_sat(lo, hi, near)) else near):
+            return ("searchValidNearby", m["name"], "the first validity query was not about the (enforced) near state")
+    return None
+
+
+def run_vsa(ck, hbin, lines, meta):
+    impl, rc, err, model = ck.run_pair(hbin, DRIVER, lines)
+    impl = impl or []
+    ck.traces_validated += 1
+    ok = True
+    nrep = {}
+    if rc != 0:
+        ck.report({"engine": "spacebounds", "clause": "harness-exit", "what": "harness exited with %s" % rc},
+                  script=lines, observed=(err or "")[-2000:], engine="spacebounds")
+        return False
+    for i, m in enumerate(meta):
+        line = impl[i] if i < len(impl) else "<missing>"
+        succ = line.startswith("ret=1")
+        ck.case((m["op"], lines[i + 1]), succ)
+        ck.count(m["op"] + "-result:" + ("success" if succ else "failure"))
+        f = vsa_oracle(m, line)
+        if f is not None and f[0] == "valid-sampler-args" and nrep.get(m["name"], 0) >= 2:
+            continue            # at most two reports per sampler and script
+        if f is not None and f[0] == "valid-sampler-args":
+            # the arguments differ from the documented algorithm but the handed states are in bounds: the property text
+            # (in bounds, valid) survives, so this is a correspondence failure, not a failing input
+            ck.disagreements += 1
+            ck.report({"engine": "spacebounds", "op": m["op"], "clause": f[0], "input_class": f[1], "what": f[2]},
+                      script=[lines[0], lines[i + 1]], expected=[model[i] if i < len(model) else None], observed=[line],
+                      found_input=False, engine="spacebounds",
+                      obligation="correspondence spacebounds: arguments %sValidStateSampler hands to its inner StateSampler (%s)"
+                                 % (m["name"], f[2][:120]))
+            ck.log("argument disagreement (%s %s): %s" % (m["op"], f[1], f[2]))
+            ok = False
+            nrep[m["name"]] = nrep.get(m["name"], 0) + 1
+            if sum(nrep.values()) >= 8:
+                break
+            continue
+        if f is not None:
+            rec = {"engine": "spacebounds", "op": m["op"], "clause": f[0], "input_class": f[1], "what": f[2]}
+            if ck.report(rec, script=[lines[0], lines[i + 1]], expected=[model[i] if i < len(model) else None],
+                         observed=[line], engine="spacebounds"):
+                ck.log("property failure (%s %s): %s" % (m["op"], f[1], f[2]))
+                ok = False
+            continue
+        mo = model[i] if i < len(model) else "<missing>"
+        if line != mo and nrep.get(m["name"], 0) >= 2:
+            continue
+        if line != mo:
+            ck.disagreements += 1
+            what = ("SpaceInformation::searchValidNearby (overload %d) over %s" % (m["overload"], m["name"])) if m["op"] == "svn" \
+                else "%sValidStateSampler with the arguments of its inner calls" % m["name"]
+            ck.report({"engine": "spacebounds", "op": m["op"], "what": "model/implementation disagreement"},
+                      script=[lines[0], lines[i + 1]], expected=[mo], observed=[line], found_input=False, engine="spacebounds",
+                      obligation="correspondence spacebounds: %s vs OmplModel.Model.SpaceBounds" % what)
+            ck.log("correspondence disagreement on a %s line (%s); oracle passes" % (m["op"], m["name"]))
+            ok = False
+            nrep[m["name"]] = nrep.get(m["name"], 0) + 1
+            if sum(nrep.values()) >= 8:
+                break
+    return ok
+
+
 def gen_vreal_script(r, nconf, iters, counts, seed):
     lines = ["spacebounds seed=%d" % seed]
     meta = []
@@ -1927,7 +2195,7 @@ def run(ck):
     for i in range(nscripts):
         r = ck.rng.fork("enf%d" % i)
         jobs.append(gen_enf_script(r, nops, counts, allow_inverted=True))
-    with ThreadPoolExecutor(max_workers=8) as ex:
+    with ThreadPoolExecutor(max_workers=WORKERS) as ex:
         res = list(ex.map(lambda j: ck.run_pair(hbin, DRIVER, j[0]), jobs))
     for (lines, meta), pre in zip(jobs, res):
         run_enf(ck, hbin, lines, meta, "random", pre=pre)
@@ -1951,6 +2219,21 @@ def run(ck):
         if len(ck.violations) >= 3:
             break
 
+    ck.log("stage: (c'') valid-state samplers with call arguments, searchValidNearby")
+    nscripts, nops = (6, 300) if quick else (30, 600)
+    for i in range(nscripts):
+        r = ck.rng.fork("vsa%d" % i)
+        lines = ["spacebounds seed=1"]
+        meta = []
+        for k in range(nops):
+            ln, m = gen_vsa_op(r, counts) if k % 2 == 0 else gen_svn_op(r, counts)
+            lines.append(ln)
+            meta.append(m)
+        run_vsa(ck, hbin, lines, meta)
+        ck.count("scripts:vsa+svn")
+        if len(ck.violations) >= 3:
+            break
+
     ck.log("stage: (b) real samplers, implementation only")
     # (b) real samplers, implementation only
     nscripts, nconf, ndraws = (16, 40, 8000) if quick else (24, 60, 30000)
@@ -1958,7 +2241,7 @@ def run(ck):
     for i in range(nscripts):
         r = ck.rng.fork("samp%d" % i)
         jobs.append(gen_samp_script(r, nconf, ndraws, counts, seed=ck.seed * 1000 + i + 1))
-    with ThreadPoolExecutor(max_workers=12) as ex:
+    with ThreadPoolExecutor(max_workers=WORKERS) as ex:
         res = list(ex.map(lambda j: ck.run_bin(hbin, j[0], timeout=3000), jobs))
     for (lines, meta), pre in zip(jobs, res):
         run_samp(ck, hbin, lines, meta, pre=pre)
@@ -2030,7 +2313,7 @@ def run(ck):
     for i in range(nscripts):
         r = ck.rng.fork("alias%d" % i)
         jobs.append(gen_alias_script(r, nconf, ndraws, counts, seed=ck.seed * 1000 + 900 + i))
-    with ThreadPoolExecutor(max_workers=12) as ex:
+    with ThreadPoolExecutor(max_workers=WORKERS) as ex:
         res = list(ex.map(lambda j: ck.run_bin(hbin, j[0], timeout=3000), jobs))
     for (lines, meta), pre in zip(jobs, res):
         run_alias(ck, hbin, lines, meta, pre=pre)
@@ -2045,7 +2328,7 @@ def run(ck):
     for i in range(nscripts):
         r = ck.rng.fork("rebound%d" % i)
         jobs.append(gen_rebound_script(r, nconf, ndraws, counts, seed=ck.seed * 1000 + 800 + i))
-    with ThreadPoolExecutor(max_workers=12) as ex:
+    with ThreadPoolExecutor(max_workers=WORKERS) as ex:
         res = list(ex.map(lambda j: ck.run_bin(hbin, j[0], timeout=3000), jobs))
     for (lines, meta), pre in zip(jobs, res):
         run_rebound(ck, hbin, lines, meta, pre=pre)
@@ -2060,7 +2343,7 @@ def run(ck):
     for i in range(nscripts):
         r = ck.rng.fork("vreal%d" % i)
         jobs.append(gen_vreal_script(r, nconf, iters, counts, seed=ck.seed * 1000 + 500 + i))
-    with ThreadPoolExecutor(max_workers=12) as ex:
+    with ThreadPoolExecutor(max_workers=WORKERS) as ex:
         res = list(ex.map(lambda j: ck.run_bin(hbin, j[0], timeout=3000), jobs))
     for (lines, meta), pre in zip(jobs, res):
         run_vreal(ck, hbin, lines, meta, pre=pre)
@@ -2082,7 +2365,7 @@ def replay(ck, data):
     script = data["script"]
     impl, rc, err = ck.run_bin(hbin, script)
     impl = impl or []
-    lockstep = all(l.split()[0] in ("enf", "vs") for l in script[1:])
+    lockstep = all(l.split()[0] in ("enf", "vs", "vsa", "svn") for l in script[1:])
     model = ck.run_bin(ck.driver(DRIVER), script)[0] if lockstep else None
     bad = rc != 0
     for i, ln in enumerate(script[1:]):
@@ -2131,7 +2414,12 @@ MANIFEST = {
             "CompoundStateSampler's per-component decisions, the Torus / Klein rejection loops and every leaf sampler on its own raw "
             "draws, RNG::uniformInt / halfNormalInt on adversarial mt19937 states (C20's RNG model for the draw), the deterministic "
             "(Halton / precomputed-sequence) samplers; oracle-driven: PrecomputedStateSampler, bounds and weights changed after "
-            "sampler allocation, aliasing (state == near), subspace samplers obtained through wrapper spaces.",
+            "sampler allocation, aliasing (state == near), subspace samplers obtained through wrapper spaces. Round 10: the "
+            "arguments every valid-state sampler hands to its inner StateSampler (near / mean state, distance / sigma; default "
+            "stddev_; settings through setters or the ParamSet) and SpaceInformation::searchValidNearby (both overloads) are in the "
+            "model and lock-stepped; the in-bounds half of the valid-state sampler clause is proved (for every inner sampler that "
+            "keeps its contract, which the modelled default samplers of every space do), composed with enforce_inbounds through "
+            "searchValidNearby for every near state.",
     "note": "Trusted: Lean kernel, the three standard axioms, the hand-written model outside the inputs the correspondence explored, "
             "the harness. Real sampler outputs are sampled, not proved (OMPL's RNG cannot be scripted); the theorems are over real "
             "numbers, IEEE rounding is executed but not verified; states are finite, bounds satisfy lo <= hi, centres are in bounds.",
